@@ -184,6 +184,20 @@ def gen_mono(ctx, rng, idx, quick):
         evals = [("M", wp, pts[0][0], pts[0][1]) for wp in (256, 1024)] + evals
     return {"kind": "M", "cls": cls, "n": n, "coeffs": cs, "evals": evals, "setter": setter, "fprec": fprec}
 
+def gen_mono_sparsehigh(ctx, rng, idx):
+    """few-term polynomials of degree 50..100 at |x| about 1.3, 64 and 128 bits: the repeated squaring of
+    mps_mhorner_sparse gives the leading term a relative error proportional to the degree, which the estimate
+    4u(p~+|p|) of mps_mhorner_with_error2 (no degree factor) has to cover"""
+    n = [64, 100, 75, 50][idx % 4]
+    cs = [(Fr(0), Fr(0))] * (n + 1); cs = list(cs)
+    for j in set([0, n] + [rng.randint(0, n) for _ in range(rng.choice([3, 4, 6]))]):
+        cs[j] = (Fr(rng.randint(1, 9) * rng.choice([-1, 1])), Fr(0))
+    pts = [(Fr(1.2345), Fr(-0.3457)), (dy(rng, 53, 1), dy(rng, 53, -1))]
+    evals = []
+    for (xr, xi) in pts:
+        evals += [("X", 64, xr, xi), ("X", 128, xr, xi)]
+    return {"kind": "M", "cls": "sparsehigh", "n": n, "coeffs": cs, "evals": evals, "setter": "q", "fprec": 0}
+
 def fixed_monos():
     """small fixed inputs through EVERY public setter: real, complex, purely imaginary and zero coefficients"""
     polys = [[(Fr(-2), Fr(0)), (Fr(0), Fr(0)), (Fr(0), Fr(3)), (Fr(0), Fr(0)), (Fr(1), Fr(0))],        # x^4 + 3i x^2 - 2
@@ -647,6 +661,7 @@ def run(ctx):
     quick = ctx.quick()
     nm, nc, ns = ctx.pick((40, 12, 20), (640, 200, 300))
     cases = fixed_monos() + [gen_mono(ctx, rng, i, quick) for i in range(nm)]
+    cases += [gen_mono_sparsehigh(ctx, rng, i) for i in range(ctx.pick(4, 40))]
     cases += [gen_cheb(ctx, rng, i, quick) for i in range(nc)]
     cases += [gen_sec(ctx, rng, i, quick) for i in range(ns)]
     ctx.log("generated %d inputs, %d evaluations" % (len(cases), sum(len(c["evals"]) for c in cases)))
